@@ -104,8 +104,14 @@ class C12(Prop):
             boundary = [j for j, p in enumerate(points) if p in bset]
             if len(boundary) > cap_here // 2:
                 boundary = r.sample(boundary, cap_here // 2)
-            rest = [j for j in range(len(points)) if j not in set(boundary)]
-            keep = set(boundary) | set(r.sample(rest, cap_here - len(boundary)))
+            # crash points in the rarer seams (user Jacobian, event functions, callbacks) are not left to the luck of a draw that the
+            # right-hand side's many calls dominate: up to a third of the cap is reserved for them
+            rare = [j for j, p in enumerate(points) if p[1] != "rhs"]
+            if len(rare) > cap_here // 3:
+                rare = r.sample(rare, cap_here // 3)
+            taken_ = set(boundary) | set(rare)
+            rest = [j for j in range(len(points)) if j not in taken_]
+            keep = taken_ | set(r.sample(rest, max(0, min(len(rest), cap_here - len(taken_)))))
             points = [p for j, p in enumerate(points) if j in keep]
         for j, (i, seam, k) in enumerate(points):
             c = copy.deepcopy(base)
